@@ -153,6 +153,10 @@ pub fn judge(prop: &str, ctx: &mut Ctx, w: &World, st: &St, hist: &[Op], params:
     if t.outputs.len() > st.m.outputs.len() + 1 {
         ctx.hit("several-change-outputs");
     }
+    let extra_outputs = if st.m.mint_and_output { 1 } else { 0 };
+    if t.outputs.iter().skip(st.m.outputs.len() + extra_outputs).filter(|o| !o.value.assets.is_empty()).count() >= 2 {
+        ctx.hit("token-change-split-over->=2-outputs");
+    }
     if !t.mint.is_empty() {
         ctx.hit("tx-with-mint");
     }
@@ -274,6 +278,9 @@ fn fee_on_build_only(ctx: &mut Ctx, w: &World, st: &St, hist: &[Op], params: &Pa
         if let Ok(t) = ledger::parse_tx(&bytes) {
             if let Ok((signed, nk, nb)) = real_signed(w, st, &t) {
                 let need = ledger::min_fee(signed.len(), &t.redeemers, ref_script_total(&t, st), &fee_params(params));
+                if std::env::var("VERIF_DEBUG_C06").is_ok() {
+                    eprintln!("DEBUG build-only fee {} need {} outputs {} hist {:?} {:?} {}", t.fee, need, t.outputs.len(), hist, method, cname);
+                }
                 if NB::from(t.fee) < need {
                     let created: Vec<&ledger::POut> = t.outputs.iter().skip(st.m.outputs.len()).collect();
                     let class = if created.iter().any(|o| !o.value.assets.is_empty()) { "change-with-assets" } else if created.is_empty() { "no-change" } else { "pure-change" };
